@@ -187,6 +187,9 @@ class AsyncSimpleClient:
             except asyncio.TimeoutError:  # pragma: no cover
                 raise TimeoutError()
             if not self.connected:
+                if self.input_buffer:
+                    # hand out what arrived before the connection ended
+                    break
                 raise DisconnectedError()
             try:
                 await asyncio.wait_for(self.input_event.wait(),
